@@ -238,3 +238,18 @@ func ValueV(v reflect.Value) string {
 	write(&sb, v, 0)
 	return sb.String()
 }
+
+// BoolNoRace reads a (possibly unexported) bool field without race instrumentation: for predicates
+// that the thread-level scheduler evaluates while the system is quiescent. An instrumented read
+// would be reported as a race with the program's own writes - and, worse, would use up the
+// detector's one report per address, hiding the program's own races on that field.
+func BoolNoRace(v interface{}, name string) (val, ok bool) {
+	f, found := Field(v, name)
+	if !found || f.Kind() != reflect.Bool || !f.CanAddr() {
+		return false, false
+	}
+	return readBool(unsafe.Pointer(f.UnsafeAddr())), true
+}
+
+//go:norace
+func readBool(p unsafe.Pointer) bool { return *(*bool)(p) }
